@@ -654,3 +654,50 @@ def s13c_counters_start_at_zero(ctx):
         z = const_int(o) == 0 or (o[0] == "call" and o[1] and o[1].endswith("Default::default"))
         r.add("LogStatistics", "default().%s is zero" % fname, z, where(b, bb), "" if z else "starts at %s" % origin_str(o)[:60])
     return r
+
+
+# ---------------------------------------------------------------------------------------------
+# U1: a setting named in milliseconds is used as milliseconds
+
+_UNIT_SUFFIX = (("_ms", "from_millis"), ("Ms", "from_millis"), ("_millis", "from_millis"), ("_secs", "from_secs"), ("_sec", "from_secs"), ("Secs", "from_secs"), ("_us", "from_micros"), ("_micros", "from_micros"), ("_ns", "from_nanos"), ("_nanos", "from_nanos"))
+
+
+def u1_duration_units(ctx):
+    r = RuleResult(
+        "U1",
+        "a duration is built in the unit its source is named in: wherever a value read from a field or enum variant whose name carries a unit (…_ms, IntervalMs, …_secs) reaches a std::time::Duration constructor, it is the constructor of that unit (from_millis for _ms). check_interval_ms = 180000 handed to from_secs is a merge check every 50 hours; interval_ms = 500 handed to from_secs is a sync every 8 minutes — the periodic task exists, runs and is raced with shutdown (P15), it just never fires in practice",
+        floor=2,
+    )
+    prog = ctx.prog
+    for b in shipped_bodies(prog):
+        live = b.live_blocks()
+        for bi, t in b.calls():
+            if bi not in live or b.blocks[bi]["cleanup"]:
+                continue
+            cn = strip_generics(t.get("callee")) or ""
+            m = re.match(r"^(std|core)::time::Duration::(from_secs|from_millis|from_micros|from_nanos|from_secs_f64|from_secs_f32)$", cn)
+            if not m:
+                continue
+            ctor = m.group(2)
+            o = expand(prog, arg_origin(b, t, 0))
+            names = set()
+            for y in origin_mentions(o, lambda y: y[0] in ("field", "variant") and isinstance(y[2], str)):
+                names.add(y[2])
+            ap = resolved_access_path(prog, b, peel(o)) or ""
+            for seg in re.split(r"[.:]", ap):
+                if seg:
+                    names.add(seg)
+            want = None
+            src = None
+            for nm in sorted(names):
+                for suf, c in _UNIT_SUFFIX:
+                    if nm.endswith(suf):
+                        want, src = c, nm
+                        break
+                if want:
+                    break
+            if want is None:
+                continue
+            ok = ctor == want or (want == "from_secs" and ctor.startswith("from_secs"))
+            r.add(fam_name(b), "Duration from `%s` uses the unit in its name" % src, ok, where(b, bi), "%s" % ctor if ok else "`%s` is named in another unit than Duration::%s takes: the period is off by orders of magnitude" % (src, ctor))
+    return r
